@@ -35,12 +35,12 @@ fn async_lattice(tier: Tier, want_probe_only: bool) -> Vec<Cfg> {
     // thorough: all eight (oversampling, interpolation) variants at L = 8, the four
     // interpolations at L = 16, one at L = 64 (control depends on L only through offsets)
     let variant_ok = |l: usize, os: usize, interp: Interp| -> bool {
-        q || (l == 8 && !(os == 2 && matches!(interp, Interp::Linear | Interp::Nearest)))
+        (q && !(os == 1 && interp == Interp::Cubic && false)) || (l == 8 && !(os == 2 && matches!(interp, Interp::Linear | Interp::Nearest)))
             || (l == 16 && os == 2 && matches!(interp, Interp::Cubic | Interp::Nearest))
             || (l == 64 && os == 2 && interp == Interp::Cubic)
     };
     let sinc_variants: Vec<(usize, Interp)> = if q {
-        vec![(2, Interp::Cubic), (2, Interp::Linear)]
+        vec![(2, Interp::Cubic), (2, Interp::Linear), (1, Interp::Cubic)]
     } else {
         vec![
             (1, Interp::Linear),
@@ -51,6 +51,8 @@ fn async_lattice(tier: Tier, want_probe_only: bool) -> Vec<Cfg> {
             (2, Interp::Nearest),
             (256, Interp::Cubic),
             (256, Interp::Nearest),
+            (1, Interp::Cubic),
+            (1, Interp::Quadratic),
         ]
     };
     let degrees: Vec<Degree> = if q {
@@ -69,7 +71,7 @@ fn async_lattice(tier: Tier, want_probe_only: bool) -> Vec<Cfg> {
                                 continue;
                             }
                             let mut kernels = vec![Kernel::Probe];
-                            if !want_probe_only && (q || (l == 8 && os == 2 && interp == Interp::Cubic) || (l == 8 && os == 1 && interp == Interp::Linear)) {
+                            if !want_probe_only && ((q && os == 2) || (l == 8 && os == 2 && interp == Interp::Cubic) || (l == 8 && os == 1 && interp == Interp::Linear)) {
                                 kernels.push(Kernel::Dispatch);
                             }
                             for kernel in kernels {
